@@ -17,7 +17,7 @@ import vlib
 from vlib import prints, write_ndjson, read_ndjson, MachineryError
 from props import schema_corpus
 
-GAP_IDS = ("F9a", "F9b", "F9c", "F9d", "F9e")
+GAP_IDS = ("F9a", "F9b", "F9c", "F9d", "F9e")   # F9f (inline merge) has no pre-repair shape in the spec
 
 CFG = """SPECIFICATION Spec
 CONSTANTS
@@ -51,9 +51,9 @@ def open_gaps():
 
 def base_r(kind):
     if kind == "alerting":
-        return {"record": "absent", "alert": "ok", "expr": "ok", "for": "ok", "keep_firing_for": "ok", "labels": "ok",
+        return {"record": "absent", "alert": "ok", "expr": "ok", "merge": "absent", "for": "ok", "keep_firing_for": "ok", "labels": "ok",
                 "annotations": "ok", "unknown": "absent"}
-    return {"record": "ok", "alert": "absent", "expr": "ok", "for": "absent", "keep_firing_for": "absent", "labels": "ok",
+    return {"record": "ok", "alert": "absent", "expr": "ok", "merge": "absent", "for": "absent", "keep_firing_for": "absent", "labels": "ok",
             "annotations": "absent", "unknown": "absent"}
 
 
@@ -141,13 +141,13 @@ def run(ctx, replay_case=None):
             viols.append({"sig": sig_of(d), "what": "pint strict mode passes, Prometheus refuses: %s" % d["prom_err"][:1], "doc": cases[0]})
         for cid, d in vm:
             viols.append({"sig": "C01:mut:replay", "what": "pint strict mode passes a file Prometheus refuses", "yaml_b64": replay_case["yaml_b64"]})
-        return vlib.conclude(ctx, viols, "model_checking", {"states": 0, "transitions": 0, "traces_validated_against_impl": len(trace),
-                                                           "samples": trace[:1], "evaluations": len(trace), "distinct_nontrivial": len(trace),
-                                                           "rule": "replay of one stored case"}, ["replay"], drift=[json.dumps(d)[:300] for _, d in dr])
+        return vlib.conclude(ctx, viols, "exploration", {"samples": trace[:1], "evaluations": len(trace), "distinct_nontrivial": len(trace),
+                                                        "rule": "replay of one stored case"}, ["replay"], drift=[json.dumps(d)[:300] for _, d in dr])
 
     # ------------------------------------------------------------------ MC (+ GEN of the replayed subset)
-    # quick:    MC all documents with <= 2 deviating fields; replay singles + pairs whose 2nd deviation is a core field
-    # thorough: MC <= 3 deviations (3rd in a core field, utf8 names); replay all pairs + the core triples of MC
+    # quick:    MC all documents with <= 2 deviating fields (utf-8 names) and <= 1 (legacy names);
+    #           replay every document with <= 1 deviation and a seeded sample of 12000 pairs
+    # thorough: MC <= 3 deviations (3rd in a core field, utf-8 names) and all pairs under both name schemes; replay all pairs
     if thorough:
         mc = ctx.tlc("StrictSchema", "c01_mc.cfg", timeout=3300, allow_violation=True, tag="mc-dev3-core",
                      files={"c01_mc.cfg": CFG % (3, tla_set(["utf8"]), "TRUE", tla_set(gaps), "Inv_C01_ModuloKnown Inv_Count")})
@@ -155,13 +155,18 @@ def run(ctx, replay_case=None):
                       files={"c01_mc2.cfg": CFG % (2, tla_set(names_all), "FALSE", tla_set(gaps), "Inv_C01_ModuloKnown Inv_Count EmitCase")})
         mcs, gen = [mc, mc2], mc2
     else:
-        mc = ctx.tlc("StrictSchema", "c01_mc.cfg", timeout=900, allow_violation=True, tag="mc-dev2+gen",
-                     files={"c01_mc.cfg": CFG % (2, tla_set(names_all), "FALSE", tla_set(gaps), "Inv_C01_ModuloKnown Inv_Count EmitCase")})
-        mcs, gen = [mc], mc
+        mc = ctx.tlc("StrictSchema", "c01_mc.cfg", timeout=900, allow_violation=True, tag="mc-dev2-utf8+gen",
+                     files={"c01_mc.cfg": CFG % (2, tla_set(["utf8"]), "FALSE", tla_set(gaps), "Inv_C01_ModuloKnown Inv_Count EmitCase")})
+        mc2 = ctx.tlc("StrictSchema", "c01_mc2.cfg", timeout=900, allow_violation=True, tag="mc-dev1-legacy+gen",
+                      files={"c01_mc2.cfg": CFG % (1, tla_set(["legacy"]), "FALSE", tla_set(gaps), "Inv_C01_ModuloKnown Inv_Count EmitCase")})
+        mcs, gen = [mc, mc2], None
     leads = [m["invariant_violated"] for m in mcs if m["invariant_violated"]]
-    cases = [v[0] for v in prints(gen, "CASE")]
-    if len(cases) != gen["distinct"]:
-        raise MachineryError("GEN emitted %d cases for %d states" % (len(cases), gen["distinct"]))
+    cases = []
+    for g in ([gen] if gen is not None else mcs):
+        got = [v[0] for v in prints(g, "CASE")]
+        if len(got) != g["distinct"]:
+            raise MachineryError("GEN emitted %d cases for %d states" % (len(got), g["distinct"]))
+        cases += got
     cases.sort(key=lambda c: json.dumps(c, sort_keys=True))
     visited = len(cases)
     if not thorough:
